@@ -156,6 +156,7 @@ def h_hull_grid(ctx):
 def h_project_grid(ctx):
     cfg = ctx.cfg
     stubs.StubDelaunay.mode = "oracle"
+    stubs.StubDelaunay.oracle_free = cfg.get("oracle_free")
     del stubs.DELAUNAY_LOG[:]
     del stubs.ORACLE_LOG[:]
     sh = tuple(cfg["shape"])
@@ -195,6 +196,20 @@ def h_project_grid(ctx):
         ndata = sh[0] * sh[1] - (1 if hole else 0)
         ctx.claim("the hull is taken over the projected cells that carry data, and tested at every projected grid node", And(len(rec["points"]) == ndata, len(rec["queries"]) == 1, len(rec["queries"][0]) == sh[0] * sh[1]))
         mask = stubs.ORACLE_LOG[-1] if stubs.ORACLE_LOG else None
+        # the hull test works on the normalised *projected* data points and grid nodes: every point handed to
+        # Delaunay differs from data point 0 by (projected difference) / (std of the projected data), per axis
+        if len(rec["points"]) == ndata and len(rec["queries"]) == 1 and len(rec["queries"][0]) == sh[0] * sh[1]:
+            cells = [(i, j) for i in range(sh[0]) for j in range(sh[1]) if not (hole and (i, j) == tuple(hole))]
+            pe = [east[j] * a + b for (i, j) in cells]
+            pn = [north[i] * c + d for (i, j) in cells]
+            sig = _std_terms(pe, pn)
+            P0 = rec["points"][0]
+            for k in range(1, ndata):
+                Pk = rec["points"][k]
+                ctx.claim("hull built on the projected data points (common normalisation)", And(eq((E.SymReal(E.T(Pk[0])) - E.SymReal(E.T(P0[0]))) * sig[0], pe[k] - pe[0]), eq((E.SymReal(E.T(Pk[1])) - E.SymReal(E.T(P0[1]))) * sig[1], pn[k] - pn[0])))
+            for q, (i, j) in enumerate((i, j) for i in range(sh[0]) for j in range(sh[1])):
+                Qk = rec["queries"][0][q]
+                ctx.claim("hull tested at the projected grid nodes with the same normalisation", And(eq((E.SymReal(E.T(Qk[0])) - E.SymReal(E.T(P0[0]))) * sig[0], (east[j] * a + b) - pe[0]), eq((E.SymReal(E.T(Qk[1])) - E.SymReal(E.T(P0[1]))) * sig[1], (north[i] * c + d) - pn[0])))
     else:
         mask = None
     for i in range(sh[0]):
@@ -216,7 +231,7 @@ def h_project_grid(ctx):
 
 
 def _cfg_pg(tier, seed):
-    q = [{"shape": (2, 2), "proj": ("2", "3")}]
+    q = [{"shape": (2, 2), "proj": ("2", "3")}, {"shape": (2, 3), "proj": ("1/2", "5"), "oracle_free": 2}]
     if tier == "quick":
         return q
     return q + [{"shape": (2, 3), "proj": ("1/2", "5"), "name": None}, {"shape": (2, 3), "proj": ("2", "3"), "hole": (0, 1)}, {"shape": (3, 3), "proj": ("7", "1/3")}]
@@ -230,7 +245,7 @@ HARNESSES = [
         bounds="2x2 (quick) / 2x3, 2x3 with one NaN hole, 3x3 (thorough) grid in real xarray with symbolic origin, positive steps and values; affine projection with concrete positive slopes and symbolic offsets; antialias=False; method=Linear over the scipy contract; every inside/outside pattern of the hull oracle forked",
         stubs=["scipy.spatial.Delaunay -> free oracle with recorded arguments", "scipy LinearNDInterpolator -> uninterpreted function with f(p_i) = v_i"],
         extra_globals=_globals,
-        engine={"oneshot": True, "keyed_sqrt": True, "sqrt_pos_axiom": True, "timeout_ms": 60000},
+        engine={"oneshot": True, "keyed_sqrt": True, "sqrt_pos_axiom": True, "div_elim": True, "timeout_ms": 60000},
         outside="the antialias range claim and the three real interpolation methods (scipy / kd-tree numerics), non-linear projections, OUT-FP, OUT-LIB (qhull)",
         timeout_s=1200,
     ),
